@@ -30,7 +30,7 @@ EXPECTED_PROBES = ["F2", "decoy_analysis_before", "variant_garbage", "variant_as
 
 PLAN = {
     "quick": {"workloads": 80, "variants": 60, "wall_budget": 200.0, "min_variants": 6, "wall_limit": 2400.0, "per_job_limit": 1200.0},
-    "thorough": {"workloads": 1600, "variants": 400, "wall_budget": 1500.0, "min_variants": 12, "wall_limit": 10 * 3600.0, "per_job_limit": 3600.0},
+    "thorough": {"workloads": 600, "variants": 400, "wall_budget": 1500.0, "min_variants": 12, "wall_limit": 10 * 3600.0, "per_job_limit": 3600.0},
 }
 
 
